@@ -54,6 +54,10 @@ NPQ_KERNELS = [
          branching=True),
     dict(name="SHAGA_update_u", file="optimizers/_shaga.py", cls="SHAGA", func="_update_u", params=[("u", "S1"), ("S", "VQ"), ("df", "VQ")], ret="S1",
          branching=True, ext_scalar_fn={"lehmer_mean": ("lehmerFn", ["x", "weight"])}),
+    # SelfCGA._get_new_proba (C14): the probability table is read as the vector of its values in key order (kind DQ), the winning operator
+    # as the position of its key (kind IDX)
+    dict(name="SelfCGA_get_new_proba", file="optimizers/_selfcga.py", cls="SelfCGA", func="_get_new_proba",
+         params=[("proba_dict", "DQ"), ("operator", "IDX"), ("threshold", "S1")], ret="VQ", branching=True, self_attrs=[("_K", "S1"), ("_iters", "S1")]),
     # SHAGA._randn: one Cauchy value (function parameter `cauchy loc scale <ordinal>`) clamped to [0, 1]
     dict(name="SHAGA_randn", file="optimizers/_shaga.py", cls="SHAGA", func="_randn", params=[("u", "S1"), ("scale", "S1")], ret="S1", branching=True, cauchy=True),
     # SHAGA._randc: Cauchy values are drawn until one lies in (0, 5/str_len]; the `while` becomes a fuel-bounded recursion (`none` when the
@@ -379,6 +383,34 @@ class TrQ:
             if e.id not in self.env:
                 raise NotRecognised(f"unknown name {e.id}")
             return e.id, self.env[e.id]
+        # np.array(list(d.values()))  /  len(d)  /  dict(zip(d.keys(), v))  for a table d read as its value vector
+        if isinstance(e, ast.Call) and is_np(e.func, "array") and len(e.args) == 1 and not e.keywords and ast.unparse(e.args[0]).startswith("list(") \
+                and ast.unparse(e.args[0]).endswith(".values())"):
+            nm = ast.unparse(e.args[0])[5:-10]
+            if self.env.get(nm) != "DQ":
+                raise NotRecognised("values of a non-table")
+            return nm, "VQ"
+        if isinstance(e, ast.Call) and isinstance(e.func, ast.Name) and e.func.id == "len" and len(e.args) == 1 and isinstance(e.args[0], ast.Name) \
+                and self.env.get(e.args[0].id) == "DQ":
+            return f"(({e.args[0].id}.length : Nat) : Rat)", "S1"
+        if isinstance(e, ast.Call) and isinstance(e.func, ast.Name) and e.func.id == "dict" and len(e.args) == 1 and not e.keywords \
+                and isinstance(e.args[0], ast.Call) and isinstance(e.args[0].func, ast.Name) and e.args[0].func.id == "zip" and len(e.args[0].args) == 2:
+            kx, vx = e.args[0].args
+            if not (ast.unparse(kx).endswith(".keys()") and self.env.get(ast.unparse(kx)[:-7]) == "DQ"):
+                raise NotRecognised("keys of the new table")
+            x, k = self.E(vx)
+            if k != "VQ":
+                raise NotRecognised("values of the new table")
+            return f"(NpQ.sameLen {ast.unparse(kx)[:-7]} {x})", "VQP"
+        if isinstance(e, ast.Call) and isinstance(e.func, ast.Attribute) and e.func.attr == "clip" and len(e.args) == 2 and not e.keywords:
+            x, k = self.E(e.func.value)
+            (a, ka), (b, kb) = self.E(e.args[0]), self.E(e.args[1])
+            if k != "VQ" or ka not in ("S", "S1") or kb not in ("S", "S1"):
+                raise NotRecognised("clip operands")
+            return f"({x}.map (NpQ.clip {a} {b}))", "VQ"
+        if isinstance(e, ast.Call) and isinstance(e.func, ast.Attribute) and e.func.attr == "sum" and not e.args and not e.keywords \
+                and self._kind(e.func.value) == "VQ":
+            return f"(NpQ.vsum {self.E(e.func.value)[0]})", "S1"
         if isinstance(e, ast.Subscript) and is_const(e.slice, 0) and isinstance(e.value, ast.Call) and isinstance(e.value.func, ast.Name) \
                 and e.value.func.id == "cauchy_distribution" and self.cfg.get("cauchy") and not e.value.args:
             kw = {k.arg: k.value for k in e.value.keywords}
@@ -663,6 +695,8 @@ class TrQM(TrQ):
                 continue
             if isinstance(st, ast.Assign) and len(st.targets) == 1 and isinstance(st.targets[0], ast.Name):
                 x, k = self.E(st.value)
+                if k == "VQP":          # a partial vector value (the new table): bind it
+                    x, k = self.bind(x), "VQ"
                 v = st.targets[0].id
                 if v in self.declared:
                     if self.env[v] != k and not (self.env[v] == "S1" and k == "S"):
@@ -674,6 +708,25 @@ class TrQM(TrQ):
                     self.env[v] = k
                 continue
             if isinstance(st, ast.AnnAssign) and st.value is None:
+                continue
+            # d[key] += c   (a table read as its value vector, the key as its position)
+            if isinstance(st, ast.AugAssign) and isinstance(st.op, ast.Add) and isinstance(st.target, ast.Subscript) and isinstance(st.target.value, ast.Name) \
+                    and isinstance(st.target.slice, ast.Name) and self.env.get(st.target.value.id) == "DQ" and self.env.get(st.target.slice.id) == "IDX":
+                x, k = self.E(st.value)
+                if k not in ("S", "S1"):
+                    raise NotRecognised("increment kind")
+                d = st.target.value.id
+                t = self.bind(f"NpQ.addAt {d} {st.target.slice.id} {x}")
+                if d not in self.declared:
+                    raise NotRecognised("table not declared mutable")
+                self.lines.append(f"{ind}{d} := {t}")
+                continue
+            # v -= c
+            if isinstance(st, ast.AugAssign) and isinstance(st.op, ast.Sub) and isinstance(st.target, ast.Name) and self.env.get(st.target.id) == "VQ":
+                x, k = self.E(st.value)
+                if k not in ("S", "S1") or st.target.id not in self.declared:
+                    raise NotRecognised("decrement kind")
+                self.lines.append(f"{ind}{st.target.id} := {st.target.id}.map (fun a => a - {x})")
                 continue
             # value = draw; while <bad value>: value = draw   (the same draw expression; at top level, `value` declared just before)
             if isinstance(st, ast.While) and self.cfg.get("redraw_loop") and not st.orelse and len(st.body) == 1 and isinstance(st.body[0], ast.Assign) \
@@ -717,6 +770,8 @@ class TrQM(TrQ):
         if [a.arg for a in self.fn.args.args if a.arg != "self"] != cfg.get("py_params", [p for p, _ in plist]):
             raise NotRecognised("parameters")
         assigned = {t.id for st in ast.walk(self.fn) if isinstance(st, ast.Assign) for t in st.targets if isinstance(t, ast.Name)}
+        assigned |= {st.target.value.id for st in ast.walk(self.fn) if isinstance(st, ast.AugAssign) and isinstance(st.target, ast.Subscript)
+                     and isinstance(st.target.value, ast.Name)}
         self.declared = set()
         self.loop_def = None
         for p, _ in plist:
@@ -727,7 +782,7 @@ class TrQM(TrQ):
         if not body or not isinstance(body[-1], ast.Return):
             raise NotRecognised("the function does not end in a return")
         self.block(body, "  ")
-        lean_k = {"VQ": "List Rat", "S1": "Rat"}
+        lean_k = {"VQ": "List Rat", "S1": "Rat", "DQ": "List Rat", "IDX": "Nat"}
         fnp = [f"({lean} : " + " → ".join(["List Rat"] * len(names)) + " → Rat)" for lean, names in cfg.get("ext_scalar_fn", {}).values()]
         if cfg.get("cauchy"):
             fnp.append("(cauchy : Rat → Rat → Nat → Rat)")
@@ -742,7 +797,7 @@ class TrQM(TrQ):
             params = params + ["(fuel : Nat)"]
         return ("/- GENERATED by harness/extract/np2lean.py from src/thefittest/" + cfg["file"] + f" ({(cfg['cls'] + '.') if cfg['cls'] else ''}{cfg['func']}) — do not edit -/\n"
                 + "import TFV.Model.NpQ\nnamespace TFV.Generated.Src\nopen TFV\n\n" + loop_txt
-                + f"def {cfg['name']} " + " ".join(params) + " : Option Rat := do\n" + "\n".join(self.lines) + "\n\nend TFV.Generated.Src\n")
+                + f"def {cfg['name']} " + " ".join(params) + f" : Option {'(List Rat)' if cfg['ret'] == 'VQ' else 'Rat'} := do\n" + "\n".join(self.lines) + "\n\nend TFV.Generated.Src\n")
 
 
 def translate(repo: Path, cfg: dict) -> str:
